@@ -330,4 +330,48 @@ def permSymmetric : List PermPair := [
   ⟨(nm! "DemogSelModels.bottlegrowth_split_sel_single_gamma"), [1, 0], [.param (nm! "nuB"), .param (nm! "nuF"), .param (nm! "T"), .param (nm! "Ts"), .param (nm! "gamma")]⟩,
   ⟨(nm! "DemogSelModels.bottlegrowth_split_mig_sel_single_gamma"), [1, 0], [.param (nm! "nuB"), .param (nm! "nuF"), .param (nm! "m"), .param (nm! "T"), .param (nm! "Ts"), .param (nm! "gamma")]⟩]
 
+/-- **reference-size sites** (strict units): the models in which, apart from the two defaults every library call inherits
+    (`theta0 = 1` in every integrator, `nu = 1` in `PhiManip.phi_1D`), a dimensionless quantity sits in a Size position, with
+    the (primitive, keyword) pairs at which it does: the literal sizes `1` of the `bottlegrowth_split*` family and of `IM_sel`
+    (`nuPre = 1`), the fractions `s`, `1-s` of the Portik `vic_*`/`founder_*` models and of `IM`, `exp(log(nu)·t/T)` in `growth` -/
+def refSiteTable : List (Name × List (Name × Name)) := [
+  (nm! "Demographics1D.growth", [(nm! "Integration.one_pop", nm! "nu")]),
+  (nm! "Demographics2D.bottlegrowth_2d", [(nm! "Integration.two_pops", nm! "nu1"), (nm! "Integration.two_pops", nm! "nu2")]),
+  (nm! "Demographics2D.bottlegrowth_split", [(nm! "Integration.two_pops", nm! "nu1"), (nm! "Integration.two_pops", nm! "nu2")]),
+  (nm! "Demographics2D.bottlegrowth_split_mig", [(nm! "Integration.two_pops", nm! "nu1"), (nm! "Integration.two_pops", nm! "nu2")]),
+  (nm! "Demographics2D.IM", [(nm! "Integration.two_pops", nm! "nu1"), (nm! "Integration.two_pops", nm! "nu2")]),
+  (nm! "portik_models_2d.vic_no_mig", [(nm! "Integration.two_pops", nm! "nu1"), (nm! "Integration.two_pops", nm! "nu2")]),
+  (nm! "portik_models_2d.vic_anc_sym_mig", [(nm! "Integration.two_pops", nm! "nu1"), (nm! "Integration.two_pops", nm! "nu2")]),
+  (nm! "portik_models_2d.vic_anc_asym_mig", [(nm! "Integration.two_pops", nm! "nu1"), (nm! "Integration.two_pops", nm! "nu2")]),
+  (nm! "portik_models_2d.vic_sec_contact_sym_mig", [(nm! "Integration.two_pops", nm! "nu1"), (nm! "Integration.two_pops", nm! "nu2")]),
+  (nm! "portik_models_2d.vic_sec_contact_asym_mig", [(nm! "Integration.two_pops", nm! "nu1"), (nm! "Integration.two_pops", nm! "nu2")]),
+  (nm! "portik_models_2d.founder_nomig", [(nm! "Integration.two_pops", nm! "nu1"), (nm! "Integration.two_pops", nm! "nu2")]),
+  (nm! "portik_models_2d.founder_sym", [(nm! "Integration.two_pops", nm! "nu1"), (nm! "Integration.two_pops", nm! "nu2")]),
+  (nm! "portik_models_2d.founder_asym", [(nm! "Integration.two_pops", nm! "nu1"), (nm! "Integration.two_pops", nm! "nu2")]),
+  (nm! "portik_models_2d.vic_no_mig_admix_early", [(nm! "Integration.two_pops", nm! "nu1"), (nm! "Integration.two_pops", nm! "nu2")]),
+  (nm! "portik_models_2d.vic_no_mig_admix_late", [(nm! "Integration.two_pops", nm! "nu1"), (nm! "Integration.two_pops", nm! "nu2")]),
+  (nm! "portik_models_2d.vic_two_epoch_admix", [(nm! "Integration.two_pops", nm! "nu1"), (nm! "Integration.two_pops", nm! "nu2")]),
+  (nm! "portik_models_2d.founder_nomig_admix_early", [(nm! "Integration.two_pops", nm! "nu1"), (nm! "Integration.two_pops", nm! "nu2")]),
+  (nm! "portik_models_2d.founder_nomig_admix_late", [(nm! "Integration.two_pops", nm! "nu1"), (nm! "Integration.two_pops", nm! "nu2")]),
+  (nm! "portik_models_2d.founder_nomig_admix_two_epoch", [(nm! "Integration.two_pops", nm! "nu1"), (nm! "Integration.two_pops", nm! "nu2")]),
+  (nm! "DemogSelModels.IM_sel", [(nm! "Integration.one_pop", nm! "nu"), (nm! "Integration.two_pops", nm! "nu1"), (nm! "Integration.two_pops", nm! "nu2")]),
+  (nm! "DemogSelModels.IM_sel_single_gamma", [(nm! "Integration.one_pop", nm! "nu"), (nm! "Integration.two_pops", nm! "nu1"), (nm! "Integration.two_pops", nm! "nu2")]),
+  (nm! "DemogSelModels.bottlegrowth_2d_sel", [(nm! "Integration.two_pops", nm! "nu1"), (nm! "Integration.two_pops", nm! "nu2")]),
+  (nm! "DemogSelModels.bottlegrowth_2d_sel_single_gamma", [(nm! "Integration.two_pops", nm! "nu1"), (nm! "Integration.two_pops", nm! "nu2")]),
+  (nm! "DemogSelModels.bottlegrowth_split_sel", [(nm! "Integration.two_pops", nm! "nu1"), (nm! "Integration.two_pops", nm! "nu2")]),
+  (nm! "DemogSelModels.bottlegrowth_split_sel_single_gamma", [(nm! "Integration.two_pops", nm! "nu1"), (nm! "Integration.two_pops", nm! "nu2")]),
+  (nm! "DemogSelModels.bottlegrowth_split_mig_sel", [(nm! "Integration.two_pops", nm! "nu1"), (nm! "Integration.two_pops", nm! "nu2")]),
+  (nm! "DemogSelModels.bottlegrowth_split_mig_sel_single_gamma", [(nm! "Integration.two_pops", nm! "nu1"), (nm! "Integration.two_pops", nm! "nu2")]),
+  (nm! "DemogSelModels.growth_sel", [(nm! "Integration.one_pop", nm! "nu")])]
+
+/-- the models in which the reference size sits *inside* a size function (`s·(nu/s)^(t/T)` with `s` a fraction of the reference
+    size, `exp(log(nu)·t/T)`, `(1·s)·…` after `nuPre = 1`): making it explicit at keyword level does not make them strictly
+    well-united -/
+def refInsideModels : List Name :=
+  [nm! "Demographics1D.growth", nm! "Demographics2D.IM", nm! "portik_models_2d.founder_nomig",
+   nm! "portik_models_2d.founder_sym", nm! "portik_models_2d.founder_asym",
+   nm! "portik_models_2d.founder_nomig_admix_early", nm! "portik_models_2d.founder_nomig_admix_late",
+   nm! "portik_models_2d.founder_nomig_admix_two_epoch", nm! "DemogSelModels.IM_sel",
+   nm! "DemogSelModels.IM_sel_single_gamma", nm! "DemogSelModels.growth_sel"]
+
 end DadiVerif.ModelDSL.Pairs
